@@ -21,6 +21,20 @@ import inspect
 
 def augment_exception_message_and_reraise(exception, message):
   """Reraises `exception`, appending `message` to its string representation."""
+  try:
+    proxy = _make_exception_proxy(exception, message)
+  except Exception:  # pylint: disable=broad-except
+    # Some classes can't be proxied (they refuse subclassing, `__new__` rejects
+    # `args`, `args` is read-only, ...): the original exception, with the message
+    # attached as a note, beats an unrelated error from building the proxy.
+    if hasattr(exception, 'add_note'):
+      exception.add_note(message.strip())
+    raise exception  # pylint: disable=raise-missing-from
+  raise proxy.with_traceback(exception.__traceback__)
+
+
+def _make_exception_proxy(exception, message):
+  """Creates a proxy for `exception` whose string representation ends in `message`."""
 
   class ExceptionProxy(type(exception)):
     """Acts as a proxy for an exception with an augmented message."""
@@ -84,7 +98,7 @@ def augment_exception_message_and_reraise(exception, message):
   proxy.args = exception.args  # `args` is a C-level slot: never reaches __getattr__.
   # Instance attributes that shadow class-level defaults never reach __getattr__.
   proxy.__dict__.update(getattr(exception, '__dict__', {}))
-  raise proxy.with_traceback(exception.__traceback__)
+  return proxy
 
 
 def _format_location(location):
